@@ -400,7 +400,7 @@ pub fn gen_wire_plan(prop: Prop, seed: u64, tier: Tier) -> WirePlan {
         spurious_permille: *rng.pick(&[0, 0, 5, 20]),
         sched,
         pct_depth: rng.range(1, 5),
-        max_steps: 20_000,
+        max_steps: if tier == Tier::Thorough { 100_000 } else { 20_000 },
         teardown: if rng.chance(3, 4) {
             Teardown::Clean
         } else {
